@@ -252,6 +252,29 @@ static void multi_case(int side, int framing, size_t chunk) {
     run_one(&q, &r, NULL, 0, chunk);
     DT.multi_member = 0;
 }
+/* a short time (15 ms, far below the 100 ms limit) passes at the k-th clock reading while the clock stands 10 ms before a full second: the seconds
+ * change and the microseconds wrap; the time spent is still 15 ms and the body must come out decoded */
+static void second_boundary_case(int at, int ce, int side) {
+    if (case_id++ % hx_shard_n != hx_shard_i) return;
+    static hx_buf z, q, r; hb_reset(&z); hb_reset(&q); hb_reset(&r);
+    encode(ce, PAY[3].p, PAY[3].n, &z);
+    hx_buf *w = side ? &r : &q;
+    if (side) { hb_puts(&q, "GET /t HTTP/1.1\r\nHost: h\r\n\r\n"); hb_printf(&r, "HTTP/1.1 200 OK\r\nContent-Encoding: %s\r\nContent-Length: %zu\r\n\r\n", CENAME[ce], z.n); }
+    else { hb_printf(&q, "POST /t HTTP/1.1\r\nHost: h\r\nContent-Encoding: %s\r\nContent-Length: %zu\r\n\r\n", CENAME[ce], z.n); hb_puts(&r, "HTTP/1.1 200 OK\r\nContent-Length: 0\r\n\r\n"); }
+    hb_put(w, z.p, z.n);
+    hx_script_init(&S); S.cfg.req_decomp = 1; S.inspect = inspect;
+    DT.side = side; DT.check_bound = 0; DT.expect_exact = 1; DT.alt = NULL; DT.invalid_lzma = 0; DT.want = PAY[3].p; DT.wn = PAY[3].n;
+    snprintf(DT.desc, sizeof DT.desc, "%s body, 300 pseudo-random bytes, Content-Encoding: %s, 40-byte chunks; the clock stands at xx.990000 s and 15 ms pass at clock reading %d (seconds change, microseconds wrap)", side ? "response" : "request", CEDESC[ce], at);
+    S.label = DT.desc;
+    S.nops = 0; hx_script_add(&S, OP_EPOCH, NULL, 1790000000u); hx_script_add(&S, OP_USEC, NULL, 990000u);
+    if (side) hx_script_add(&S, OP_Q, q.p, (uint32_t) q.n);
+    hx_script_add(&S, OP_CLOCK, NULL, ((uint32_t) at << 24) | 15u);
+    for (size_t o = 0; o < w->n; o += 40) hx_script_add(&S, side ? OP_S : OP_Q, w->p + o, (uint32_t) (w->n - o < 40 ? w->n - o : 40));
+    if (!side) hx_script_add(&S, OP_S, r.p, (uint32_t) r.n);
+    hx_script_add(&S, OP_CLOSE, NULL, 0);
+    if (hx_run(&S, &O)) return;
+    n_exec++; n_calls += O.ncalls; hx_report_verdicts(&S, &O, PROPS);
+}
 /* long bodies: more than 256 output buffers (2 MiB) of decompressed data, where the decompression time accounting samples the clock.  The clock is
  * FROZEN (no time passes), at several epochs: the accounting must see zero time spent whatever the absolute time is, and the payload must arrive intact. */
 static void long_case(int ce, int side, uint32_t epoch, size_t chunk) {
@@ -318,6 +341,7 @@ static int worker(int argc, char **argv) {
         for (int layers = 1; layers <= 2; layers++) for (int li = 0; li < 3; li++) for (size_t ch = 1; ch <= 5; ch += (ch < 3 ? 1 : 2))
             for (int zi = 0; zi < 2; zi++) bomb_tail_case(zi ? (12u << 20) : (1u << 20), thorough ? 7000 : 4000, layers, TLIM[li], ch);
         for (int at = 1; at <= 40; at++) clock_case(at);
+        for (int side = 1; side >= 0; side--) for (int c = 0; c < 2; c++) for (int at = 1; at <= 24; at++) second_boundary_case(at, c ? CE_DEFLATE_ZLIB : CE_GZIP, side);
         for (int side = 1; side >= 0; side--) for (int fr = 0; fr < 2; fr++) for (int ch = 0; ch < 2; ch++) multi_case(side, fr, ch ? 7 : 0);
         misparse_case(0, CE_DEFLATE_ZLIB); misparse_case(1, CE_GZIP); misparse_case(1, CE_DEFLATE_ZLIB);
         bomb_ext_case(8u << 20, 0); bomb_ext_case(8u << 20, 16384);
